@@ -473,3 +473,59 @@ def sac_policy_case(low, high, seed: int, n_obs: int = 4, n_keys: int = 6) -> di
             atoms["KeyedActionWithinBounds"] &= bool(np.all(np.asarray(a2) >= np.asarray(lo) - 1e-6) and np.all(np.asarray(a2) <= np.asarray(hi) + 1e-6))
     return dict(ev="cont", kind="MLPSACPolicy", params={"low": list(np.asarray(lo, dtype=float).reshape(-1)), "high": list(np.asarray(hi, dtype=float).reshape(-1))},
                 atoms={k: bool(v) for k, v in atoms.items()})
+
+
+# ------------------------------------------------------------------------------------------------ batched parameters
+def batched_case(kind: str, seed: int, B: int = 3) -> dict:
+    """Parameters with a leading batch dimension (valid for every class): every method must act row-wise - row i of the batched
+    law is the law built from row i of the parameters.  Atoms."""
+    rng = np.random.default_rng(seed)
+    key = jr.key(seed)
+
+    def rows(make, params):          # the batched law and its B row laws
+        return make(*params), [make(*[jax.tree.map(lambda a: a[i], p) for p in params]) for i in range(B)]
+
+    if kind == "Categorical":
+        law, parts = rows(lambda lg: Categorical(logits=lg), [jnp.asarray(rng.normal(size=(B, 4)), jnp.float32)])
+    elif kind == "Bernoulli":
+        law, parts = rows(lambda lg: Bernoulli(logits=lg), [jnp.asarray(rng.normal(size=(B, 3)), jnp.float32)])
+    elif kind == "MultiCategoricalFlat":
+        law, parts = rows(lambda lg: MultiCategorical(logits=lg, action_dims=(2, 3)), [jnp.asarray(rng.normal(size=(B, 5)), jnp.float32)])
+    elif kind == "MultiCategoricalSeq":
+        law, parts = rows(lambda a, b: MultiCategorical(logits=[a, b]),
+                          [jnp.asarray(rng.normal(size=(B, 2)), jnp.float32), jnp.asarray(rng.normal(size=(B, 3)), jnp.float32)])
+    elif kind == "Normal":
+        law, parts = rows(lambda m, s: Normal(loc=m, scale=s), [jnp.asarray(rng.normal(size=(B,)), jnp.float32), jnp.asarray(rng.uniform(0.5, 2, size=(B,)), jnp.float32)])
+    elif kind == "MultivariateNormalDiag":
+        law, parts = rows(lambda m, s: MultivariateNormalDiag(loc=m, scale_diag=s),
+                          [jnp.asarray(rng.normal(size=(B, 2)), jnp.float32), jnp.asarray(rng.uniform(0.5, 2, size=(B, 2)), jnp.float32)])
+    elif kind == "SquashedNormal":
+        law, parts = rows(lambda m, s: SquashedNormal(loc=m, scale=s, low=jnp.asarray(-1.0), high=jnp.asarray(3.0)),
+                          [jnp.asarray(rng.normal(size=(B,)), jnp.float32), jnp.asarray(rng.uniform(0.5, 1.5, size=(B,)), jnp.float32)])
+    else:
+        lo, hi = jnp.asarray([-1.0, 0.0]), jnp.asarray([1.0, 4.0])
+        law, parts = rows(lambda m, s: SquashedMultivariateNormalDiag(loc=m, scale_diag=s, low=lo, high=hi),
+                          [jnp.asarray(rng.normal(size=(B, 2)), jnp.float32), jnp.asarray(rng.uniform(0.5, 1.5, size=(B, 2)), jnp.float32)])
+    ks = jr.split(key, B + 1)
+    xs = jnp.stack([jnp.asarray(parts[i].sample(ks[i])) for i in range(B)])
+    close = lambda a, b, tol=1e-4: bool(np.shape(a) == np.shape(b) and np.allclose(np.asarray(a, dtype=np.float64), np.asarray(b, dtype=np.float64), rtol=tol, atol=tol))
+    atoms = {}
+    atoms["BatchedLogProbIsRowWise"] = close(law.log_prob(xs), jnp.stack([parts[i].log_prob(xs[i]) for i in range(B)]))
+    atoms["BatchedProbIsRowWise"] = close(law.prob(xs), jnp.stack([parts[i].prob(xs[i]) for i in range(B)]))
+    atoms["BatchedModeIsRowWise"] = close(law.mode(), jnp.stack([jnp.asarray(parts[i].mode()) for i in range(B)]))
+    try:
+        want = jnp.stack([parts[i].entropy() for i in range(B)])
+    except NotImplementedError:
+        want = None
+    if want is not None:
+        atoms["BatchedEntropyIsRowWise"] = close(law.entropy(), want)
+    s = law.sample(ks[B])
+    atoms["BatchedSampleHasOneRowPerParameterRow"] = bool(np.shape(s) == np.shape(xs))
+    s2, lp2 = law.sample_and_log_prob(ks[B])
+    atoms["BatchedSampleAndLogProbReturnsOneLogProbPerRowOfItsSample"] = bool(np.shape(s2) == np.shape(xs)) and close(lp2, law.log_prob(s2), 1e-3) \
+        and close(lp2, jnp.stack([parts[i].log_prob(s2[i]) for i in range(B)]), 1e-3)
+    return dict(ev="batched", kind=kind, params={}, atoms={k: bool(v) for k, v in atoms.items()})
+
+
+# (the two diagonal multivariate classes reject batched parameters at construction: "scale_diag must be a vector")
+BATCHED_KINDS = ("Categorical", "Bernoulli", "MultiCategoricalFlat", "MultiCategoricalSeq", "Normal", "SquashedNormal")
